@@ -37,12 +37,15 @@
 
 #define BS_META(it) ((it)->metadata.bytestring_metadata)
 #define ST_META(it) ((it)->metadata.string_metadata)
+/* definite strings own a buffer, also when empty: that is what the decoder and cbor_build_* produce.  A handle-less fresh
+ * item (cbor_new_definite_bytestring() before set_handle) is outside every listed property's scope; serializing or copying
+ * it calls memcpy(dst, NULL, 0), which C99 leaves undefined (DESIGN 11.5) */
 #define BYTESTRING_DEF_VALID(it)                                                          \
   (ITEM_RW(it) && (it)->type == CBOR_TYPE_BYTESTRING && BS_META(it).type == _CBOR_METADATA_DEFINITE && \
-   BS_META(it).length <= VERIF_MAXOBJ && (BS_META(it).length == 0 || __CPROVER_r_ok((it)->data, BS_META(it).length)))
+   BS_META(it).length <= VERIF_MAXOBJ && (BS_META(it).length == 0 ? (it)->data != NULL : __CPROVER_r_ok((it)->data, BS_META(it).length)))
 #define STRING_DEF_VALID(it)                                                              \
   (ITEM_RW(it) && (it)->type == CBOR_TYPE_STRING && ST_META(it).type == _CBOR_METADATA_DEFINITE && \
-   ST_META(it).length <= VERIF_MAXOBJ && (ST_META(it).length == 0 || __CPROVER_r_ok((it)->data, ST_META(it).length)))
+   ST_META(it).length <= VERIF_MAXOBJ && (ST_META(it).length == 0 ? (it)->data != NULL : __CPROVER_r_ok((it)->data, ST_META(it).length)))
 
 #define CHUNKS(it) ((struct cbor_indefinite_string_data *)(it)->data)
 #define CHUNKED_DATA_VALID(it)                                                            \
